@@ -98,15 +98,24 @@ fn main() {
                 eprintln!("  {} : states={} transitions={} {:.1}s {}", r.family, r.stats.states, r.stats.transitions, r.wall_s, r.note);
                 ev.families.push(r);
             }
-            let mut fams = vec![families::f1(), families::f2(), families::fd(2, 2, families::all_anchors(2, 2), 3, "all 49 anchors"), families::fs(&verif_dir().join("seeds"))];
+            // deep / dense families first (uncapped), bulk last (wall-capped in the quick tier)
+            let mut fams = vec![
+                families::f1(),
+                families::fsetup(2, 2),
+                families::fs_sel(&verif_dir().join("seeds"), thorough, thorough),
+            ];
+            let uncapped = fams.len();
+            fams.push(families::f2());
+            fams.push(if thorough { families::fplus(families::interior_squares(), 3, "every interior square") } else { families::fplus(vec![18, 35], 3, "trap c6, d4") });
+            fams.push(families::fd(2, 2, families::all_anchors(2, 2), 3, "all 49 anchors"));
             if thorough {
                 fams.push(families::f3w(None, &families::ALL_KINDS, "all 36 windows, all 12 kinds"));
             }
-            for fam in fams.iter() {
+            for (fi, fam) in fams.iter().enumerate() {
                 if fam.n == 0 || report::stopped() {
                     continue;
                 }
-                let r = sym::run_family(id, fam, deadline);
+                let r = sym::run_family(id, fam, if fi < uncapped { None } else { deadline });
                 eprintln!("  {} : roots={} states={} transitions={} {:.1}s {}", r.family, r.stats.roots, r.stats.states, r.stats.transitions, r.wall_s, r.note);
                 ev.families.push(r);
             }
